@@ -83,7 +83,8 @@ def inventory(fx, bodies):
                     else:
                         safe = rng is not None and IV.fits(rng, rty)
                     out.append(Site('overflow:' + m['op'], b, bi, what, t['span'], t['macros'],
-                                    {'a': a, 'b': bb_, 'result': rng, 'ty': rty, 'safe_by_width': safe}))
+                                    {'a': a, 'b': bb_, 'result': rng, 'ty': rty, 'safe_by_width': safe,
+                                     'a_term': r.operand(m['a']), 'b_term': r.operand(m['b'])}))
                 elif mk == 'BoundsCheck':
                     what = 'index %s of len %s' % (show(r.operand(m['index']))[:60], show(r.operand(m['len']))[:60])
                     idx, ln = iv.operand(m['index'], (), bi), iv.operand(m['len'], (), bi)
